@@ -1,20 +1,23 @@
 #!/usr/bin/env python3
-"""seedrun.py <mutdir> <PROP> [<PROP>...]: apply <mutdir>/patch.diff to /repo, run the named checks, undo.
-Prints one line per property: DETECTED (with the first VIOLATION line) or MISSED."""
+"""seedrun.py <mutdir> <PROP> [<PROP>...]: apply <mutdir>/patch.diff to a scratch worktree of /repo
+(so that nobody else building from /repo is disturbed), run the named checks against it
+(VERIF_REPO), remove the worktree. Prints one line per property: DETECTED or MISSED."""
 import json, os, subprocess, sys
 mut = sys.argv[1]
 props = sys.argv[2:]
+WT = "/tmp/seedwt_%d" % os.getpid()
 def sh(cmd, **kw):
     return subprocess.run(cmd, shell=True, stdout=subprocess.PIPE, stderr=subprocess.STDOUT, text=True, **kw)
-r = sh(f"git -C /repo apply {mut}/patch.diff")
-if r.returncode != 0:
-    print("patch does not apply:", r.stdout); sys.exit(2)
+sh(f"git -C /repo worktree add -q --detach {WT} HEAD")
 try:
+    r = sh(f"git -C {WT} apply {mut}/patch.diff")
+    if r.returncode != 0:
+        print("patch does not apply:", r.stdout); sys.exit(2)
     env = "GOFLAGS=-mod=mod GOPROXY=off GOSUMDB=off GOTOOLCHAIN=local"
-    b = sh(f"cd /repo && {env} go build ./... && {env} go test -vet=off -count=1 ./... 2>&1 | grep -v '^ok\\|no test files' | head -5")
+    b = sh(f"cd {WT} && {env} go build ./... && {env} go test -vet=off -count=1 ./... 2>&1 | grep -v '^ok\\|no test files' | head -5")
     print("suite:", "PASS" if b.stdout.strip() == "" else "FAIL " + b.stdout[:300])
     for p in props:
-        c = sh(f"cd /verif && ./check {p} --tier quick")
+        c = sh(f"cd /verif && VERIF_REPO={WT} ./check {p} --tier quick")
         v = [l for l in c.stdout.splitlines() if l.startswith("VIOLATION")]
         if v:
             rp = v[0].split("replay=")[1].split()[0]
@@ -26,6 +29,6 @@ try:
         else:
             print(f"{p}: MISSED exit={c.returncode} {c.stdout.splitlines()[-1][:200] if c.stdout else ''}")
 finally:
-    sh("git -C /repo checkout -- . && rm -f /repo/data.db*")
-    # leave Generated consistent with the unchanged tree
+    sh(f"git -C /repo worktree remove --force {WT}")
     sh("cd /verif && ./build/extract -repo /repo -lean lean -json build/generated.json")
+    sh("cd /verif && python3 -c 'import veriflib as V; V.build_harness()'")
